@@ -10,9 +10,27 @@ import (
 	"sync"
 
 	"deps.dev/util/resolve"
+	"deps.dev/util/resolve/dep"
 
 	"verifharness/sx"
 )
+
+// purityType renders a dependency type with every attribute key probed explicitly (String
+// and Compare need not show all of them: a key written into shared storage must be seen).
+func purityType(t dep.Type) string {
+	var b strings.Builder
+	b.WriteString(t.String())
+	for k := -8; k <= 24; k++ {
+		if k == 0 {
+			continue
+		}
+		if t.HasAttr(dep.AttrKey(k)) {
+			v, _ := t.GetAttr(dep.AttrKey(k))
+			fmt.Fprintf(&b, "#%d=%q", k, v)
+		}
+	}
+	return b.String()
+}
 
 // graphText renders a canonicalised graph as sorted tuples (never DeepEqual).
 func graphText(g *resolve.Graph, err error) string {
@@ -37,7 +55,7 @@ func graphText(g *resolve.Graph, err error) string {
 	}
 	var es []string
 	for _, e := range g.Edges {
-		es = append(es, fmt.Sprintf("e %d->%d %q %s", e.From, e.To, e.Requirement, e.Type.String()))
+		es = append(es, fmt.Sprintf("e %d->%d %q %s", e.From, e.To, e.Requirement, purityType(e.Type)))
 	}
 	sort.Strings(es)
 	b.WriteString(strings.Join(es, "\n"))
@@ -63,7 +81,7 @@ func snapshot(lc *resolve.LocalClient, sys resolve.System, u sx.V) string {
 			rs, err := lc.Requirements(ctx, vk)
 			fmt.Fprintf(&b, " R err=%v:", err != nil)
 			for _, r := range rs {
-				fmt.Fprintf(&b, " [%s %s@%s]", r.Type.String(), r.Name, r.Version)
+				fmt.Fprintf(&b, " [%s %s@%s]", purityType(r.Type), r.Name, r.Version)
 			}
 			b.WriteByte('\n')
 			for _, d := range ve.Nth(2).List() {
